@@ -26,3 +26,10 @@ class Shape:
     crate_attrs: List[str] = field(default_factory=list)  # crate-level attributes needed (features)
     tags: List[str] = field(default_factory=list)
     expect_reject: bool = False     # the program must NOT compile (decided by rustc, not by the solver); it has no harnesses
+
+
+def reject_shape(prefix, name, program, why, exercises):
+    """A program that must NOT compile (a 'is a compile error' / 'no such impl' clause of a property).  It has no harness: rustc decides it while
+    the harness crate is built, and the evidence lists it under must_not_compile_* - it is not a solver result."""
+    return Shape("%s_rej_%s" % (prefix, name), "#![allow(dead_code, unused)]\n" + program + "\n", [], "[must not compile: %s] %s" % (why, program),
+                 exercises=list(exercises), expect_reject=True)
